@@ -1,5 +1,5 @@
 """C06 - a failed or cancelled mutate never damages the input file (structural clauses)."""
-from ..rules import mutate, baseline
+from ..rules import mutate, baseline, writers
 
 EXPLANATION = (
     "Static rule checking of mutate's failure behaviour: R-EXC handler discipline around the yield (CancelMutation the only "
@@ -22,6 +22,7 @@ def c1(ctx):
 
 def c2(ctx):
     mutate.mutate_order(ctx)
+    mutate.save_sequence(ctx)
 
 
 def c3(ctx):
@@ -30,6 +31,7 @@ def c3(ctx):
 
 def c4(ctx):
     mutate.serialization_fails_loudly(ctx)
+    writers.charts_items(ctx)
 
 
 def c_api(ctx):
@@ -39,6 +41,6 @@ CLAUSES = [
     ("C06.1", "handler discipline around the yield (R-EXC)", c1),
     ("C06.2-4", "nothing that can fail for data reasons happens after truncation; backup complete first (R-ORDER)", c2),
     ("C06.5", "write-effect census over mutate's call tree", c3),
-    ("C06.6", "a failing serialization raises out of str(simfile): nothing swallows it (R-EXC)", c4),
+    ("C06.6", "a failing serialization raises out of str(simfile): nothing swallows it (R-EXC); every chart-list element is written by its own serialize(), so a non-chart raises", c4),
     ("C06.api", "public surface: signatures and defaults, constants, enumerations, blank templates, base classes as confirmed (R-API)", c_api),
 ]
